@@ -76,6 +76,48 @@ def Env.resObj (cx : Env) (i : Nat) : Nat := match cx.objsel with | none => i | 
 inductive Mode | sym | num (ignoreZero : Bool) | log
 deriving Repr, BEq, DecidableEq
 
+/-! ### the guards of `NLReader` / `ReadHeader` as named predicates (tied to the source by `Gen/NLGuards.lean`,
+    theorems `C02_gen_*` in GenTie.lean) -/
+namespace G
+/-- `ReadUInt(unsigned ub)`: `unsigned_value >= ub` -/
+abbrev oob (v ub : Nat) : Prop := v ≥ ub
+/-- `ReadUInt(unsigned lb, unsigned ub)`: `unsigned_value < lb || unsigned_value >= ub` -/
+abbrev oobLU (v lb ub : Nat) : Prop := v < lb ∨ v ≥ ub
+/-- `ReadNumArgs`: `num_args < min_args` -/
+abbrev fewArgs (n minArgs : Nat) : Prop := n < minArgs
+/-- `ReadReference`: `reader_.ReadChar() != 'v'` -/
+abbrev notRef (c : UInt8) : Bool := c != 118
+/-- `ReadOpCode`: `opcode > MAX_OPCODE` -/
+abbrev badOpcode (opcode : Nat) : Prop := opcode > MpVerif.Gen.Opcodes.maxOpcode
+/-- PL term: `num_slopes <= 1` -/
+abbrev fewSlopes (n : Nat) : Prop := n ≤ 1
+/-- logical count: `c != 'o'`, then `GetOpCodeInfo(opcode).kind != expr::COUNT` -/
+abbrev notOp (c : UInt8) : Bool := c != 111
+abbrev notCountKind (kind : Nat) : Bool := kind != MpVerif.Gen.Opcodes.kCOUNT
+/-- COMPL bound: `var_index == 0 || var_index > header_.num_vars` -/
+abbrev badComplVar (v numVars : Nat) : Bool := v == 0 || v > numVars
+/-- column sizes: `reader_.ReadUInt() != header_.num_vars - 1` (in `int`: never equal when `num_vars = 0`) -/
+abbrev badNumSizes (v numVars : Nat) : Prop := numVars = 0 ∨ v != numVars - 1
+/-- cumulative column sizes: `size < prev_size` -/
+abbrev badOffset (size prev : Nat) : Prop := size < prev
+/-- initial values: `num_values > vh.num_items()` -/
+abbrev tooManyInit (n numItems : Nat) : Prop := n > numItems
+/-- `F` segment: `type != func::NUMERIC && type != func::SYMBOLIC` -/
+abbrev badFuncType (t : Nat) : Bool := t != 0 && t != 1
+/-- `S` segment: `info > (SUFFIX_KIND_MASK | suf::FLOAT)` -/
+abbrev badSuffixKind (info : Nat) : Prop := info > (MpVerif.Gen.Opcodes.kSUFFIX_KIND_MASK ||| MpVerif.Gen.Opcodes.kSUF_FLOAT)
+/-- header: `num_ampl_options > MAX_AMPL_OPTIONS` -/
+abbrev tooManyOptions (n : Nat) : Prop := n > MpVerif.Gen.Opcodes.kMAX_AMPL_OPTIONS
+/-- header: `num_logical_cons > INT_MAX - num_algebraic_cons` -/
+abbrev conOverflow (numLogical numAlgebraic : Nat) : Prop := numLogical + numAlgebraic > 2147483647
+/-- header: `num_compl_conds > INT_MAX - num_nl_compl_conds` -/
+abbrev complOverflow (cc ncc : Nat) : Prop := cc + ncc > 2147483647
+/-- header: `arith_kind > arith::LAST` -/
+abbrev badArith (ak : Nat) : Prop := ak > MpVerif.Gen.Opcodes.kARITH_LAST
+/-- segment letters with their own `case` in `NLReader::Read` (besides `b` and NUL) -/
+def segmentLetters : List UInt8 := [67, 76, 79, 86, 70, 71, 74, 83, 114, 75, 107, 120, 100]
+end G
+
 section
 variable (cx : Env)
 
@@ -91,17 +133,17 @@ def eol : P Unit := lift (rEol cx.inp cx.k)
 /-- `NLReader::ReadUInt(unsigned ub)` -/
 def readUIntUB (ub : Nat) : P Nat := do
   let v ← rdUInt cx
-  if v ≥ ub then fail cx .oob else pure v
+  if G.oob v ub then fail cx .oob else pure v
 
 /-- `NLReader::ReadUInt(unsigned lb, unsigned ub)` -/
 def readUIntLU (lb ub : Nat) : P Nat := do
   let v ← rdUInt cx
-  if v < lb ∨ v ≥ ub then fail cx .oob else pure v
+  if G.oobLU v lb ub then fail cx .oob else pure v
 
 /-- `NLReader::ReadNumArgs(min_args)` -/
 def readNumArgs (minArgs : Nat) : P Nat := do
   let n ← rdUInt cx
-  if n < minArgs then fail cx .fewargs else pure n
+  if G.fewArgs n minArgs then fail cx .fewargs else pure n
 
 /-- `NLReader::DoReadReference` -/
 def doReadReference : P Unit := do
@@ -112,12 +154,12 @@ def doReadReference : P Unit := do
 /-- `NLReader::ReadReference` -/
 def readReference : P Unit := do
   let c ← rdChar cx
-  if c != 118 then fail cx .ref else doReadReference cx
+  if G.notRef c then fail cx .ref else doReadReference cx
 
 /-- `NLReader::ReadOpCode` -/
 def readOpCode : P Nat := do
   let opcode ← rdUInt cx
-  if opcode > maxOpcode then fail cx .opcode else do
+  if G.badOpcode opcode then fail cx .opcode else do
   eol cx
   pure opcode
 
@@ -153,7 +195,7 @@ def readNumericOp (rec : Mode → P Unit) (opcode : Nat) : P Unit := do
     rec .log; rec (.num false); rec (.num false); emit .ifExpr
   else if fk == kPLTERM then do
     let numSlopes ← rdUInt cx
-    if numSlopes ≤ 1 then fail cx .slopes else do
+    if G.fewSlopes numSlopes then fail cx .slopes else do
     eol cx
     emit (.beginPL (numSlopes - 1))
     forN (numSlopes - 1) 0 fun _ => do
@@ -222,9 +264,9 @@ def readLogicalOp (rec : Mode → P Unit) (opcode : Nat) : P Unit := do
   else if fk == kFIRST_LOGICAL_COUNT then do
     rec (.num false)
     let c ← rdChar cx
-    if c != 111 then fail cx .count else do
+    if G.notOp c then fail cx .count else do
     let op ← readOpCode cx
-    if opKind op != kCOUNT then fail cx .count else do
+    if G.notCountKind (opKind op) then fail cx .count else do
     readCountExpr cx rec
     emit (.logicalCount kind)
   else if fk == kIMPLICATION then do
@@ -310,7 +352,7 @@ def readBounds (isCon : Bool) : P Unit := do
       if isCon then do
         let flags ← rdInt cx 32
         let v ← rdUInt cx
-        if v == 0 || v > cx.h.num_vars then fail cx .oob else do
+        if G.badComplVar v cx.h.num_vars then fail cx .oob else do
         emit (.complementarity i (v - 1) (flags % 4).toNat)
         eol cx
       else fail cx .complvar
@@ -320,7 +362,7 @@ def readBounds (isCon : Bool) : P Unit := do
 def readColumnSizes (cumulative : Bool) : P Unit := do
   let v ← rdUInt cx
   -- num_sizes = num_vars - 1 is -1 for num_vars = 0, which no unsigned value equals
-  if cx.h.num_vars = 0 ∨ v != cx.h.num_vars - 1 then fail cx .expectn else do
+  if G.badNumSizes v cx.h.num_vars then fail cx .expectn else do
   eol cx
   emit .columnSizes
   let rec loop : (n : Nat) → (prev : Nat) → P Unit
@@ -328,7 +370,7 @@ def readColumnSizes (cumulative : Bool) : P Unit := do
     | n + 1, prev => do
       let size ← rdUInt cx
       if cumulative then
-        if size < prev then fail cx .coloff else do
+        if G.badOffset size prev then fail cx .coloff else do
         emit (.colSize (size - prev)); eol cx
         loop n size
       else do
@@ -340,7 +382,7 @@ def readColumnSizes (cumulative : Bool) : P Unit := do
 def readInitialValues (isCon : Bool) : P Unit := do
   let numItems := if isCon then cx.h.num_algebraic_cons else cx.h.num_vars
   let n ← rdUInt cx
-  if n > numItems then fail cx .manyinit else do
+  if G.tooManyInit n numItems then fail cx .manyinit else do
   eol cx
   forN n 0 fun _ => do
     let index ← readUIntUB cx numItems
@@ -351,7 +393,7 @@ def readInitialValues (isCon : Bool) : P Unit := do
 /-- the `'S'` case of `NLReader::Read` + `ReadSuffix<ItemInfo>(info)` -/
 def readSuffix : P Unit := do
   let info ← rdUInt cx
-  if info > (kSUFFIX_KIND_MASK ||| kSUF_FLOAT) then fail cx .sufkind else do
+  if G.badSuffixKind info then fail cx .sufkind else do
   let kind := info % 4
   -- ConHandler::num_items() cannot overflow (ReadHeader checks the sum); ReadUInt(1, num_items + 1u)
   let numItems := cx.h.suffixItems kind
@@ -404,7 +446,7 @@ def readSegment (c : UInt8) : P Unit := do
   else if c == 70 then do     -- 'F'
     let index ← readUIntUB cx cx.h.num_funcs
     let type ← rdUInt cx
-    if type != 0 && type != 1 then fail cx .functype else do
+    if G.badFuncType type then fail cx .functype else do
     let nargs ← rdInt cx 32
     let name ← rdName cx
     eol cx
@@ -482,7 +524,7 @@ def readHeader : L Header := do
   let h : Header := { format := fmt }
   let n? ← tReadOptionalUInt inp
   let nopts := n?.getD h.num_ampl_options
-  if nopts > kMAX_AMPL_OPTIONS then tReport inp .manyopts else do
+  if G.tooManyOptions nopts then tReport inp .manyopts else do
   let opts ← readOptions inp nopts 0 h.ampl_options
   let vb? ← (if opts.getD 1 0 == 3 then tReadOptionalDouble inp else pure none : L (Option F64))
   tReadTillEndOfLine inp
@@ -495,7 +537,7 @@ def readHeader : L Header := do
   let eqns? ← (if ranges?.isSome then tReadOptionalUInt inp else pure none : L (Option Nat))
   let lcons? ← (if eqns?.isSome then tReadOptionalUInt inp else pure none : L (Option Nat))
   -- suffixes on constraints address algebraic and logical constraints together
-  if lcons?.getD 0 + num_algebraic_cons > intMax then tReport inp .ioverflow else do
+  if G.conOverflow (lcons?.getD 0) num_algebraic_cons then tReport inp .ioverflow else do
   tReadTillEndOfLine inp
   let h := { h with num_vars, num_algebraic_cons, num_objs, num_ranges := ranges?.getD 0,
                     num_eqns := match eqns? with | some e => (e : Int) | none => -1,
@@ -510,7 +552,7 @@ def readHeader : L Header := do
   let allCompl := nz?.isSome
   let num_nl_compl_conds := ncc?.getD 0
   let num_compl_conds := cc?.getD 0 + num_nl_compl_conds
-  if num_compl_conds > intMax then tReport inp .ioverflow else do
+  if G.complOverflow (cc?.getD 0) num_nl_compl_conds then tReport inp .ioverflow else do
   tReadTillEndOfLine inp
   let h := { h with num_nl_cons, num_nl_objs, num_compl_conds, num_nl_compl_conds,
                     num_compl_dbl_ineqs := if num_compl_conds > 0 && !allCompl then -1 else ((di?.getD 0 : Nat) : Int),
@@ -531,7 +573,7 @@ def readHeader : L Header := do
   let ak? ← tReadOptionalUInt inp
   let (arith_kind, flags) ← (match ak? with
     | some ak =>
-      if ak > kARITH_LAST then tReport inp .arith else do
+      if G.badArith ak then tReport inp .arith else do
       let fl? ← tReadOptionalUInt inp
       pure (ak, fl?.getD h.flags)
     | none => pure (h.arith_kind, h.flags) : L (Nat × Nat))
